@@ -354,3 +354,27 @@ def write_evidence(ctx, coverage, assumptions, level, nviol):
     }
     with open(os.path.join(EVIDENCE, f"{ctx.prop}.json"), "w") as fh:
         json.dump(ev, fh, indent=1)
+
+
+def generic_replay(ctx, mod, path):
+    """Re-runs the case stored in a replay file through implementation, model and the property's judge."""
+    d = json.load(open(path))
+    case = d.get("case")
+    if not case or "op" not in case:
+        print("replay file has no executable case:", d.get("what"))
+        return 1
+    ctx.build_harness()
+    ctx.build_lean(getattr(mod, "PROP_MODULES", []))
+    case = dict(case)
+    case["id"] = 0
+    impl, _, _ = ctx.run_impl([case])
+    model, _, _ = ctx.run_model([case])
+    fs = mod.judge(case, impl.get(0), model.get(0)) if hasattr(mod, "judge") else []
+    for f in fs:
+        print(f"{f.kind}: {f.signature}: {f.what}")
+    print("implementation:", json.dumps(impl.get(0))[:600])
+    print("model:         ", json.dumps(model.get(0))[:600])
+    if any(f.kind == "oracle" for f in fs):
+        print(f"VIOLATION property={ctx.prop} replay={path}")
+        return 1
+    return 0
